@@ -332,6 +332,12 @@ func H_prec() {
 	read := vDeclareTyped(app, t, asOpt, def, strings.Join(envNames, " "), &user)
 	if asOpt {
 		app.Spec = "[--xx...]"
+		if vParamInt("withArg") == 1 {
+			// a positional argument that always converts follows the option values
+			app.String(StringArg{Name: "Y"})
+			app.Spec = "[--xx...] [Y]"
+			argv = append(argv, "pos")
+		}
 	} else {
 		app.Spec = "[X...]"
 	}
